@@ -239,11 +239,13 @@ fn eval_prefix(prefixes: &BTreeMap<String, Numeric>, expr: &Expr) -> Result<Nume
             let left = eval_prefix(prefixes, &*left)?;
             let right = eval_prefix(prefixes, &*right)?;
             let right: i32 = right
-                .to_int()
+                // to_int() would round 1.5 down to 1
+                .as_bigint()
+                .and_then(|value| value.as_int())
                 .and_then(|value| value.try_into().ok())
                 // i32::MIN cannot be negated
                 .filter(|&value: &i32| value != i32::MIN)
-                .ok_or_else(|| "Exponent is too big".to_string())?;
+                .ok_or_else(|| "Exponent is not an integer, or is too big".to_string())?;
             if right < 0 && (left == Numeric::zero() || left == Numeric::Float(0.0)) {
                 return Err("Division by zero".to_string());
             }
@@ -303,7 +305,9 @@ fn eval_quantity(
             match **right {
                 Expr::Const { ref value } => {
                     let value = value
-                        .to_int()
+                        // to_int() would round 2.9 down to 2
+                        .as_bigint()
+                        .and_then(|value| value.as_int())
                         .filter(|value| value.unsigned_abs() <= i32::MAX as u64)
                         .filter(|&value| {
                             left.iter().all(|(_, &power)| {
@@ -312,7 +316,7 @@ fn eval_quantity(
                                     .map_or(false, |power| power.unsigned_abs() <= i32::MAX as u64)
                             })
                         })
-                        .ok_or_else(|| "RHS of `^` is too big".to_string())?;
+                        .ok_or_else(|| "RHS of `^` is not an integer, or is too big".to_string())?;
                     Ok(left.pow(value))
                 }
                 Expr::UnaryOp(UnaryOpExpr {
@@ -321,16 +325,19 @@ fn eval_quantity(
                 }) => {
                     if let Expr::Const { ref value } = **expr {
                         let value = -value
-                            .to_int()
+                            .as_bigint()
+                            .and_then(|value| value.as_int())
                             .filter(|value| value.unsigned_abs() <= i32::MAX as u64)
                             .filter(|&value| {
                                 left.iter().all(|(_, &power)| {
-                                    power
-                                        .checked_mul(value)
-                                        .map_or(false, |power| power.unsigned_abs() <= i32::MAX as u64)
+                                    power.checked_mul(value).map_or(false, |power| {
+                                        power.unsigned_abs() <= i32::MAX as u64
+                                    })
                                 })
                             })
-                            .ok_or_else(|| "RHS of `^` is too big".to_string())?;
+                            .ok_or_else(|| {
+                                "RHS of `^` is not an integer, or is too big".to_string()
+                            })?;
                         Ok(left.pow(value))
                     } else {
                         Err(format!("RHS of `^` must be a constant: {expr}"))
